@@ -23,3 +23,26 @@ pub open spec fn constr_enc(c: ConstrPlutusData) -> Seq<Tok> {
         None => seq![Tok::Tag(102), Tok::Arr(2), Tok::UInt(c.alternative.0)] + list_enc(c.data),
     }
 }
+impl NativeScripts {
+    /// first occurrences in order (proved in unit dedup_plutus_list)
+    #[verifier::external_body] pub fn deduplicated_view(&self) -> (r: Vec<&NativeScript>) ensures r@ == refs(dedup_seq(self.scripts@)) { unimplemented!() }
+}
+/// native script lists: a plain definite array on their own; in the witness set a tagged set (#6.258) whose declared length is the number
+/// of scripts actually written (all of them, or the first occurrences)
+pub open spec fn nscripts_set_enc(l: NativeScripts, dedup: bool) -> Seq<Tok> {
+    let items = if dedup { dedup_seq(l.scripts@) } else { l.scripts@ };
+    seq![Tok::Tag(258), Tok::Arr(items.len() as u64)] + flat(items)
+}
+/// the scripts of one language version, in order; and their first occurrences (PlutusScripts::view / deduplicated_view(Some(v)): filter
+/// loops, the de-duplication itself is proved in unit dedup_plutus_list; ASSUMED here)
+pub open spec fn of_lang(s: Seq<PlutusScript>, v: Language) -> Seq<PlutusScript> { s.filter(|x: PlutusScript| x.lang() == v) }
+impl PlutusScripts {
+    #[verifier::external_body] pub fn view(&self, version: &Language) -> (r: Vec<&PlutusScript>) ensures r@ == refs(of_lang(self.scripts@, *version)) { unimplemented!() }
+    #[verifier::external_body] pub fn deduplicated_view(&self, version: Option<&Language>) -> (r: Vec<&PlutusScript>)
+        ensures version is Some ==> r@ == refs(dedup_seq(of_lang(self.scripts@, *version->Some_0))), version is None ==> r@ == refs(dedup_seq(self.scripts@)) { unimplemented!() }
+}
+/// plutus_v1_script set of the witness set (key 3 / 6 / 7): #6.258([* script]) over the scripts of that version, declared length = scripts written
+pub open spec fn pscripts_set_enc(l: PlutusScripts, dedup: bool, v: Language) -> Seq<Tok> {
+    let items = if dedup { dedup_seq(of_lang(l.scripts@, v)) } else { of_lang(l.scripts@, v) };
+    seq![Tok::Tag(258), Tok::Arr(items.len() as u64)] + flat(items)
+}
